@@ -23,9 +23,11 @@ MANIFEST = {
             'machine in the statement order of Runtime.shutdown: shutdown_closes_after_quiescence (no connection is '
             'closed by p before a poll saw p\'s _pc_level <= depth and p received every other party\'s shutdown message), '
             'quiesced_was_polled, every_connection_has_a_closer. Tied to the source by generated obligations all_balanced '
-            '(each of the five exit paths of typed_asyncoro/_reconcile decrements exactly once) and shutdown_order_ok, and '
+            '(each of the five exit paths of typed_asyncoro/_reconcile decrements exactly once) and shutdown_order_ok (statement '
+            'order of shutdown; unset_protocol resolves the awaited future iff ALL peers other than self are deregistered), and '
             'to runs by the simulator: task completion at barrier return and at every close, full _pc_level assignment '
-            'log replayed through the Coq counter model, shutdown completion and closing of all connections.',
+            'log replayed through the Coq counter model, shutdown completion, all connections of a party closed at the instant '
+            'its shutdown returns, no exception inside connection callbacks, also with closes of lower-numbered peers arriving late.',
     'note': 'Safety only: shutdown_terminates (liveness under fair delivery) is NOT proved, termination of shutdown is '
             'checked on the explored schedules. BaseException subclasses escaping a first segment (CancelledError, '
             'KeyboardInterrupt) are outside the model (the handlers are `except Exception`). Barriers inside coroutines '
@@ -83,6 +85,7 @@ def run(ctx):
     bal_ok = table_ok and info['compiled']['CoroBalanced.v'][0]
     ctx.extra['pc_level_paths'] = info['pc_level_paths']
     ctx.extra['shutdown_order'] = info['shutdown_order']
+    ctx.extra['unset_condition'] = info['unset_condition']
     if bal_ok:
         ctx.discharged += 2
         ctx.theorems.append(('all_balanced, shutdown_order_ok (gen/CoroBalanced.v)',
@@ -90,10 +93,10 @@ def run(ctx):
     else:
         ctx.log('generated obligation FAILED:\n%s' % info['compiled'].get('CoroBalanced.v', ('', 'table did not compile'))[1][-600:])
         ctx.broken.append({'kind': 'proof', 'file': 'gen/CoroBalanced.v', 'paths': info['pc_level_paths'],
-                           'shutdown_order': info['shutdown_order'],
+                           'shutdown_order': info['shutdown_order'], 'unset_condition': info['unset_condition'],
                            'detail': info['compiled'].get('CoroBalanced.v', ('', ''))[1][-600:]})
     ctx.log('pc_level exit paths: %s; shutdown order: %s; obligations %s' % (
-        [(p[0], p[1], p[2]) for p in info['pc_level_paths']], info['shutdown_order'], 'hold' if bal_ok else 'FAIL'))
+        [(p[0], p[1], p[2]) for p in info['pc_level_paths']], info['shutdown_order'] + [info['unset_condition']], 'hold' if bal_ok else 'FAIL'))
 
     stats = collections.Counter()
     exprs, meta = [], []
@@ -110,12 +113,21 @@ def run(ctx):
         lag = rng.randrange(m)
         pols += [('fifo', pols[0][1], ('--no-barrier',)), ('lag:%d:25' % lag, base.lagging(m, lag, 25), ('--no-barrier',)),
                  ('lag:%d:25' % ((lag + 1) % m), base.lagging(m, (lag + 1) % m, 25), ())]
+        if m in (3, 4):
+            # closes of lower-numbered peers arrive late (short sessions: one program, then shutdown)
+            late = base.late_closes(m)
+            if ctx.tier != 'thorough':
+                late = [x for x in late if x[0].startswith('hold:')] + rng.sample([x for x in late if not x[0].startswith('hold:')], 2)
+            pols += [(pn, pf, ('late',)) for pn, pf in late]
         all_progs = progs
         for pn, pf, extra in pols:
             if time.time() - t0 > budget * (ci + 1) / len(base.CONFIGS) and not extra:
                 ctx.notes.append('time budget: skipped %s for (%d,%d)' % (pn, m, t))
                 continue
-            progs = nb_progs if extra else all_progs
+            progs = all_progs[-1:] if extra == ('late',) else (nb_progs if extra else all_progs)
+            if extra == ('late',):
+                extra = ()
+                stats['late_close_sessions'] += 1
             sess = base.Session(m, t, ctx.seed + 7, extra=extra, start_policy=pf())
             try:
                 ll = LevelLog(sess)
@@ -165,8 +177,10 @@ def run(ctx):
                 sd = sess.shutdown(pf)
                 if any(r is not True for r in sd):
                     ctx.violation('shutdown did not complete on all parties under %s (m=%d,t=%d)' % (pn.split(':')[0], m, t),
-                                  {'case': key0, 'shutdown': sd, 'closed': sim.net.closed})
+                                  {'case': key0, 'shutdown': sd, 'closed': sim.net.closed, 'exceptions': sess.callback_exceptions()[:4]})
+                    sess.check_shutdown_state(ctx, key0)
                     continue
+                sess.check_shutdown_state(ctx, key0)
                 final_len = {k: len(v) for k, v in sim.net.stream.items()}
                 want_closed = sorted((i, j) for i in range(m) for j in range(i + 1, m))
                 if sorted(sim.net.closed) != want_closed:
